@@ -56,12 +56,12 @@ Section Sel7.
     destruct (T07_proofs.selector_rows c st) as (Sb & Sr & Si & Eb & Er). cbv zeta in *.
     split.
     - intros Hin. destruct (console_with_embeds _ _ _ _ _ Hr Hin) as (r & Hk & Hf).
-      unfold report_text7 in Hk. rewrite Eb in Hk.
+      unfold report_text7 in Hk. destruct (conv_overflow (r7_base c) st); [discriminate|]. rewrite Eb in Hk.
       destruct (bal_report7 (Select.report_selector (pats_of c MetaText.RBalance)) st (rc_commodity (r7_base c))) as [rep|] eqn:Erep;
         cbn [option_map] in Hk; [|discriminate]. injection Hk as <-.
       exists rep. split; [reflexivity|]. split; [exact Hf|]. intros Hwf. exact (Sb rep Hwf eq_refl).
     - intros Hin. destruct (console_with_embeds _ _ _ _ _ Hr Hin) as (r & Hk & Hf).
-      unfold report_text7 in Hk. rewrite Er in Hk. cbn [option_map] in Hk. injection Hk as <-.
+      unfold report_text7 in Hk. destruct (conv_overflow (r7_base c) st); [discriminate|]. rewrite Er in Hk. cbn [option_map] in Hk. injection Hk as <-.
       rewrite Sr in Hf. split; [exact Hf|exact Si].
   Qed.
 End Sel7.
